@@ -394,6 +394,58 @@ fn c01_type_byte(b: u8) -> CheckResult {
     Ok(expected.is_some())
 }
 
+
+/// Stateless functions must not depend on what was called before (caches, lazily built tables,
+/// thread-local fast paths): `threads` short-lived threads each start at a seed-chosen triple and
+/// walk `steps` further triples in a scattered order; every result is judged by the same oracle.
+fn fresh_thread_pass(ctx: &Ctx, name: &str, valid_only: bool, threads: u64, steps: u64, check: fn(u8, u8, u8) -> CheckResult) -> Sub {
+    let n: u64 = if valid_only { 128 * 128 * 128 } else { 256 * 128 * 128 };
+    let seed = ctx.sub_seed(name);
+    let decode = move |i: u64| -> (u8, u8, u8) {
+        if valid_only {
+            (0x80 + (i >> 14) as u8, ((i >> 7) & 127) as u8, (i & 127) as u8)
+        } else {
+            ((i >> 14) as u8, ((i >> 7) & 127) as u8, (i & 127) as u8)
+        }
+    };
+    let mut sub = Sub::new(
+        name,
+        &format!("{} short-lived threads, each starting at a seed-chosen triple (so that every run has different 'first calls') and walking {} further triples in a scattered order (stride 2654435761 mod domain)", threads, steps),
+        "non-trivial = every evaluated triple",
+        false,
+    );
+    let t0 = std::time::Instant::now();
+    let batch = 64u64;
+    let mut k = 0u64;
+    while k < threads {
+        let parts: Vec<Sub> = std::thread::scope(|sc| {
+            let mut hs = Vec::new();
+            for t in k..(k + batch).min(threads) {
+                let mut part = sub.like();
+                hs.push(sc.spawn(move || {
+                    let mut i = splitmix(seed ^ t) % n;
+                    for _ in 0..=steps {
+                        let (s, d1, d2) = decode(i);
+                        part.eval(triple_simplicity(s, d1, d2), || triple_json(s, d1, d2), || check(s, d1, d2));
+                        i = (i + 2_654_435_761) % n;
+                    }
+                    part
+                }));
+            }
+            hs.into_iter().map(|h| h.join().expect("thread died")).collect()
+        });
+        for p in parts {
+            sub.merge(p);
+        }
+        k += batch;
+    }
+    sub.wall_ms = t0.elapsed().as_millis() as u64;
+    sub.supplementary = true;
+    let (s, d1, d2) = decode(splitmix(seed) % n);
+    sub.samples.push(triple_json(s, d1, d2));
+    sub
+}
+
 pub fn run_c01(ctx: &Ctx) -> Report {
     let mut subs = Vec::new();
     let stride = ctx.pick(5u64, 1, 1);
@@ -450,6 +502,7 @@ pub fn run_c01(ctx: &Ctx) -> Report {
         sub.add_samples(256, ctx.seed, |i| json!({"byte": i}));
         subs.push(sub);
     }
+    subs.push(fresh_thread_pass(ctx, "fresh_threads_scattered_order", false, ctx.pick(32, 512, 4096), 200, c01_triple));
     Report {
         subs,
         rule: "exhaustive enumeration of the stated finite domains; a case is non-trivial when it carries a non-zero data field (the suite never feeds those through the structured form)".into(),
@@ -462,7 +515,7 @@ pub fn run_c01(ctx: &Ctx) -> Report {
 
 pub fn replay_c01(sub: &str, case: &Value) -> Option<CheckResult> {
     match sub {
-        "triples" => triple_from(case).map(|(s, a, b)| c01_triple(s, a, b)),
+        "triples" | "fresh_threads_scattered_order" => triple_from(case).map(|(s, a, b)| c01_triple(s, a, b)),
         "structured_values" => json_u64(&case["index"]).filter(|i| *i < N_STRUCTURED).map(c01_structured),
         "quarter_u7" => json_u8(&case["byte"]).filter(|b| *b < 128).map(c01_quarter_u7),
         "quarter_frames" => json_u64(&case["index"]).filter(|i| *i < 120).map(c01_quarter_frame),
@@ -583,6 +636,7 @@ pub fn run_c02(ctx: &Ctx) -> Report {
     }
     sub.add_samples(256, ctx.seed, |i| json!({"byte": i}));
     subs.push(sub);
+    subs.push(fresh_thread_pass(ctx, "fresh_threads_scattered_order", true, ctx.pick(32, 512, 4096), 200, c02_triple));
     Report {
         subs,
         rule: "exhaustive over valid triples and implementations; each observable compared with a literal MIDI 1.0 table".into(),
@@ -592,7 +646,7 @@ pub fn run_c02(ctx: &Ctx) -> Report {
 
 pub fn replay_c02(sub: &str, case: &Value) -> Option<CheckResult> {
     match sub {
-        "classify" => triple_from(case).filter(|t| t.0 >= 0x80).map(|(s, a, b)| c02_triple(s, a, b)),
+        "classify" | "fresh_threads_scattered_order" => triple_from(case).filter(|t| t.0 >= 0x80).map(|(s, a, b)| c02_triple(s, a, b)),
         "type_bytes" => json_u8(&case["byte"]).map(c01_type_byte),
         _ => None,
     }
